@@ -33,6 +33,9 @@ func (c *Ctx) guardAll(rule, key string, f *ssa.Function, env Env, chks ...*GChe
 	}
 }
 
+// emptinessTest: the spellings of "the list is empty / non-empty" as a comparison of its length.
+var emptinessTest = map[string]bool{"cmp: 0 == cfg": true, "cmp: 0 != cfg": true, "cmp: 1 > cfg": true, "cmp: 0 >= cfg": true, "cmp: 0 < cfg": true, "cmp: 1 <= cfg": true}
+
 func runC07(c *Ctx) {
 	parse := c.Method(pParser, "Parser", "Parse")
 	po := c.Method(pParser, "Parser", "ParseOperation")
@@ -548,7 +551,7 @@ func (c *Ctx) configSinks() {
 			if f == "MaxOperationTimeDelta" && strings.HasPrefix(s, "cmp: ") {
 				continue // the sum from+Δ is compared with the anchoring time: decided by C09.O1
 			}
-			if _, isList := map[string]bool{"MultihashAlgorithms": true, "Patches": true, "SignatureAlgorithms": true, "KeyAlgorithms": true}[f]; isList && (s == "cmp: ι < cfg" || s == "cmp: 0 == cfg" || s == "range") {
+			if _, isList := map[string]bool{"MultihashAlgorithms": true, "Patches": true, "SignatureAlgorithms": true, "KeyAlgorithms": true}[f]; isList && (s == "cmp: ι < cfg" || emptinessTest[s] || s == "range") {
 				continue // iteration bound / emptiness test of the list itself
 			}
 			g2 = append(g2, s)
